@@ -3,6 +3,7 @@ package server
 import (
 	"context"
 	"errors"
+	"sync"
 
 	"github.com/feichai0017/NoKV/manifest"
 	"github.com/feichai0017/NoKV/pb"
@@ -21,6 +22,10 @@ type Service struct {
 	ids     *core.IDAllocator
 	tso     *tso.Allocator
 	storage pdstorage.Store
+
+	// persistMu orders allocator checkpoints: the counters are read and written
+	// under it so a racing caller can never persist an older pair last.
+	persistMu sync.Mutex
 }
 
 // NewService constructs a PD-lite service.
@@ -188,6 +193,8 @@ func (s *Service) persistAllocatorState() error {
 	if s == nil || s.storage == nil {
 		return nil
 	}
+	s.persistMu.Lock()
+	defer s.persistMu.Unlock()
 	return s.storage.SaveAllocatorState(s.ids.Current(), s.tso.Current())
 }
 
